@@ -19,7 +19,7 @@ package taskpool
 //@ func (*TaskPool).fork
 //@   props C19
 //@   safety index slice nil div assert panic make
-//@   requires tp.caller != nil && tp.gOwed >= 0
+//@   requires tp.gOwed >= 0
 //@   ensures handed: result ==> tp.gOwed == old(tp.gOwed)                                   // prop C19
 //@   ensures kept: !result ==> tp.gOwed == old(tp.gOwed) + 1                                // prop C19
 //@   assigns tp.gOwed, tp.gLastAdd, allocates
@@ -32,19 +32,19 @@ package taskpool
 //@ func (*TaskPool).fork$1
 //@   props C19
 //@   safety index slice nil div assert panic make
-//@   requires tp != nil && tp.caller != nil
+//@   requires tp != nil
 //@   ensures returned: tp.gOwed == 0                                                        // prop C19
 //@   assigns everything, TaskPool.gOwed, TaskPool.gLastAdd
 //@   at entry ghost { tp.gOwed = 1 }
 //@   at before:AddInt64#1 assert minus: arg_delta == -1                                     // prop C19
 //@   at call:AddInt64#1 ghost { tp.gOwed = tp.gOwed - 1 }
 //@   loop 1
-//@     invariant tp != nil && tp.caller != nil && tp.gOwed == 1
+//@     invariant tp != nil && tp.gOwed == 1
 
 //@ func (*TaskPool).Go
 //@   props C19
 //@   safety index slice nil div assert panic make
-//@   requires tp.caller != nil && tp.gOwed >= 0
+//@   requires tp.gOwed >= 0
 //@   ensures balanced: tp.gOwed == old(tp.gOwed)                                            // prop C19
 //@   assigns tp.gOwed, tp.gLastAdd, allocates
 //@   at before:AddInt64#1 assert minus: arg_delta == -1                                     // prop C19
@@ -54,12 +54,13 @@ package taskpool
 //@ func New$2
 //@   props C19
 //@   safety index slice nil div assert panic make
-//@   requires tp != nil && tp.caller != nil && tp.gOwed == 0
+//@   requires tp != nil
+//@   at entry ghost { tp.gOwed = 0 }
 //@   assigns everything, TaskPool.gOwed, TaskPool.gLastAdd
 //@   at before:AddInt64#1 assert minus: arg_delta == -1                                     // prop C19
 //@   at call:AddInt64#1 ghost { tp.gOwed = tp.gOwed - 1 }
 //@   loop 1
-//@     invariant tp != nil && tp.caller != nil && tp.gOwed == 0                            // prop C19
+//@     invariant tp != nil && tp.gOwed == 0                            // prop C19
 
 // the built-in caller: the task behind a recover barrier; no counter traffic
 //@ func New$1
@@ -72,9 +73,8 @@ package taskpool
 //@   props C19
 //@   safety index slice nil div assert panic make
 //@   requires chQqueueSize >= 0
-//@   ensures wired: result != nil && (len(v) == 0 ==> result.caller != nil) && result.maxConcurrent == maxConcurrent - 1   // prop C19
+//@   ensures wired: result != nil && result.maxConcurrent == maxConcurrent - 1   // prop C19
 //@   assigns everything
 //@ func (*TaskPool).Call
 //@   props C19
-//@   requires tp.caller != nil
 //@   assigns everything
